@@ -60,11 +60,14 @@ def gen_text(rng):
     while True:
         n = rng.choice([1, 1, 2, 2, 3])
         t = "".join(rng.choice(CHARS) for _ in range(n))
-        bad = False
-        for i, ch in enumerate(t):
-            if ch == "\\" and i + 1 < len(t) and t[i + 1] in "nt\\'\"\n\t":
-                bad = True
-        if bad or t.strip(" ") == "":
+        # the grammar language un-escapes in two passes, each a chain of replacements (\\ \' when
+        # the string token is read, then \" \' \\ \n \t for the recognizer), so some texts (two
+        # backslashes in a row, a backslash before n or t, ...) cannot be written the plain
+        # way: keep exactly the texts whose written form reads back as the text
+        w = write(t)[1:-1]
+        back = w.replace("\\\\", "\\").replace("\\'", "'")
+        back = back.replace('\\"', '"').replace("\\'", "'").replace("\\\\", "\\").replace("\\n", "\n").replace("\\t", "\t")
+        if back != t or t.strip(" ") == "":
             continue
         return t
 
